@@ -18,7 +18,8 @@ import time
 
 VERIF = os.path.dirname(os.path.dirname(os.path.abspath(__file__)))
 REPO = os.environ.get("FEAT_REPO", "/repo")
-OUT = os.path.join(VERIF, "out")
+OUT = os.environ.get("VERIF_OUT") or os.path.join(VERIF, "out")
+EVIDENCE_DIR = os.environ.get("VERIF_EVIDENCE_DIR") or os.path.join(VERIF, "evidence")
 PLUGIN = os.path.join(VERIF, "fe", "featx.so")
 MPI_INC = "/usr/lib/x86_64-linux-gnu/openmpi/include"
 
@@ -26,6 +27,11 @@ SRC_DIRS = ["kernel", "control", "applications", "tutorials", "tools", "area51",
 SRC_EXT = (".hpp", ".cpp", ".h", ".c", ".cu", ".dox")
 
 _tree_digest = None
+
+
+def repo_path(p=""):
+    """absolute path (or path regex prefix) below the repository under analysis"""
+    return os.path.join(REPO, p) if p else REPO
 
 
 def cfg_dir():
@@ -736,8 +742,8 @@ class Check:
             "wall_s": round(time.time() - self.t0, 2),
             "violations": len(new),
         }
-        os.makedirs(os.path.join(VERIF, "evidence"), exist_ok=True)
-        with open(os.path.join(VERIF, "evidence", self.pid + ".json"), "w") as f:
+        os.makedirs(EVIDENCE_DIR, exist_ok=True)
+        with open(os.path.join(EVIDENCE_DIR, self.pid + ".json"), "w") as f:
             json.dump(ev, f, indent=1, sort_keys=False)
             f.write("\n")
         print("%s tier=%s: %d obligations over %d rules, %d discharged, %d known findings, %d new violations, %d analysis problems, %.1fs" % (
